@@ -1,16 +1,16 @@
 import FV.Props.C17
-import FV.EmplaceSer
+import FV.EmplaceSerAll
 /-! # C17 / C03 clause 3 — the emplaced image of a portable value is its reference serialisation -/
 namespace FV.Props
 open FV
 
 /-- **C17 (image).** For every well-formed type all of whose parts have alignment 1 (`Ty.align1`: the `Portable` shape), every
-well-typed initialiser with one image per sized field and without `flex::FromIterator`, at **any address** and in any buffer of at
+well-typed initialiser with one image per sized field (as every generated `…Init` has), at **any address** and in any buffer of at
 least `MIN_SIZE` bytes: whenever the emplacer reports `Ok`, the image starts with `serialize t i` — tag, fields, length and
 elements concatenated in declaration order, each in its fixed byte order, nothing in between — and `size()` of the value is
-exactly the length of that serialisation (no trailing padding either). Named `_partial` because the `FlexVec` filled from an
-iterator is not covered by the proof (it is by the correspondence check). -/
-theorem C17_image_is_serialisation_partial (t : Ty) (h : t.WF) (ha : t.align1 = true) (i : Init) (hw : InitWT t i) (ht : InitTight t i)
+exactly the length of that serialisation (no trailing padding either). `flex::FromIterator` included: the chain is every item
+preceded by its distance to the next slot, the last by `L::MAX`. -/
+theorem C17_image_is_serialisation (t : Ty) (h : t.WF) (ha : t.align1 = true) (i : Init) (hw : InitWT t i) (ht : InitTight t i)
     (s : Slice) (hlen : t.dict.minSize ≤ s.len) :
     ∃ o, emplaceU t i s = .ok o ∧
       (o.res = .ok () → ∀ b, serialize t i = some b → o.bytes.take b.length = b ∧ t.dict.size ⟨s.addr, o.bytes⟩ = .ok b.length) := by
@@ -22,4 +22,9 @@ theorem C17_image_is_serialisation_partial (t : Ty) (h : t.WF) (ha : t.align1 = 
 example : emplaceU (.uenum ⟨1, 1, false⟩ [[], [.prim 2 1, .bool], [.prim 4 1, .vec (.prim 2 1) ⟨2, 1, true⟩]])
     (.uenum 2 [[0xde, 0xad, 0xbe, 0xef]] (some (.vecIter [[1, 0], [2, 0]]))) ⟨3, [9,9,9,9,9,9,9,9,9,9,9,9,9]⟩ =
     .ok ⟨[2, 0xde, 0xad, 0xbe, 0xef, 0, 2, 1, 0, 2, 0, 9, 9], .ok ()⟩ := by decide +kernel
+/-- non-vacuity for the FlexVec case: `FlexVec<FlatString<u8>, le::U16>` holding "ab", "c" at an odd address -/
+example : emplaceU (.flex (.str ⟨1, 1, false⟩) ⟨2, 1, false⟩) (.flexIter [.strFrom [97, 98], .strFrom [99]]) ⟨1, [9,9,9,9,9,9,9,9,9,9,9]⟩ =
+    .ok ⟨[5, 0, 2, 97, 98, 255, 255, 1, 99, 9, 9], .ok ()⟩ ∧
+    serialize (.flex (.str ⟨1, 1, false⟩) ⟨2, 1, false⟩) (.flexIter [.strFrom [97, 98], .strFrom [99]]) =
+      some [5, 0, 2, 97, 98, 255, 255, 1, 99] := ⟨by decide +kernel, by decide⟩
 end FV.Props
